@@ -41,4 +41,10 @@ theorem ofE_toE {α} (r : List (Int × α)) : List.map (fun e => (e.t, e.v)) (to
   | nil => rfl
   | cons x r ih => simp [ih]
 
+theorem sorted_suffix' {α} : ∀ (p r : List (Entry α)), Sorted (p ++ r) → Sorted r := by
+  intro p
+  induction p with
+  | nil => intro r h; exact h
+  | cons a p ih => intro r h; exact ih r (sorted_tail h)
+
 end Finam.Props.C11
